@@ -273,6 +273,11 @@ func run() int {
 				rep.Notes[k+": "+n] = true
 			}
 		}
+		if ex.aborted {
+			// exploration given up (reported as an engine error = undecided):
+			// do not spend solver time on a partial path set
+			ex.paths = nil
+		}
 		allPaths = append(allPaths, ex.paths...)
 		if false {
 			for u := range ex.usedContracts {
